@@ -13,6 +13,7 @@ import (
 	"encoding/binary"
 	"encoding/json"
 	"fmt"
+	"net"
 	"os"
 	"path/filepath"
 	"strings"
@@ -20,6 +21,7 @@ import (
 	"time"
 
 	ouroboros "github.com/blinklabs-io/gouroboros"
+	"github.com/blinklabs-io/gouroboros/cbor"
 	"github.com/blinklabs-io/gouroboros/ledger"
 	"github.com/blinklabs-io/gouroboros/pipeline"
 	"github.com/blinklabs-io/gouroboros/protocol/chainsync"
@@ -160,7 +162,7 @@ func coqKey(k string) string {
 
 func header() string {
 	var sb strings.Builder
-	sb.WriteString("From Coq Require Import String.\nFrom V Require Import Lib.Base Lib.Hex C21.Model.\nLocal Open Scope string_scope.\n")
+	sb.WriteString("From Coq Require Import String.\nFrom V Require Import Lib.Base Lib.Hex C21.Model C21.Stop.\nLocal Open Scope string_scope.\n")
 	for i, f := range fixtures {
 		fmt.Fprintf(&sb, "Definition fh%d : bytes := Eval vm_compute in %s.\n", i, vh.Bytes(vh.UnHex(f.Hash)))
 	}
@@ -179,6 +181,49 @@ type scenario struct {
 	// Pipe: the client is configured with a real pipeline.BlockPipeline (roll-forward blocks
 	// are applied by its ApplyFunc); PipelineDrainTimeout is left at its zero default
 	Pipe bool `json:"pipe"`
+	// Gate > 0: the Gate-th callback blocks; Stop() is called while it is blocked.  Gate is
+	// chosen as 1 + j*limit: at that callback every RequestNext has been answered, so the
+	// client has agency and Done MUST go out (alone, at once) whatever the timing
+	Gate int `json:"gate,omitempty"`
+}
+
+// tapConn records the chain-sync segments the client's muxer writes (muxer.Send writes one
+// whole segment per Write call): "seg t1 t2 .." = the message types of one segment, logged
+// before the bytes are handed to the pipe.  Only RequestNext (0) / Done (7) segments.
+type tapConn struct {
+	net.Conn
+	lg *peer.Log
+}
+
+func (t *tapConn) Write(b []byte) (int, error) {
+	if len(b) >= 8 {
+		id := binary.BigEndian.Uint16(b[4:6]) & 0x7fff
+		if id == chainsync.ProtocolIdNtC {
+			payload := b[8:]
+			var types []string
+			keep := false
+			for len(payload) > 0 {
+				var raw cbor.RawMessage
+				k, err := cbor.Decode(payload, &raw)
+				if err != nil || k == 0 {
+					break
+				}
+				mt, err := cbor.DecodeIdFromList(payload[:k])
+				payload = payload[k:]
+				if err != nil {
+					continue
+				}
+				if mt == 0 || mt == 7 {
+					keep = true
+				}
+				types = append(types, fmt.Sprint(mt))
+			}
+			if keep {
+				t.lg.Add("seg %s", strings.Join(types, " "))
+			}
+		}
+	}
+	return t.Conn.Write(b)
 }
 
 type outcome struct {
@@ -188,10 +233,24 @@ type outcome struct {
 	Evidence     []string `json:"evidence"`
 	DoneSeen     bool     `json:"done_seen"`
 	DoneOutst    int      `json:"done_outstanding"`
+	Gated        bool     `json:"gated"`          // the gate callback was reached and Stop() called while it was blocked
+	DoneAtGate   bool     `json:"done_at_gate"`   // the peer read Done while the callback was still blocked
+	GoLeft       []string `json:"goroutines_left"` // chain-sync client goroutines still there after Stop() returned
 }
 
 func runScenario(sc scenario, seed uint64) (out outcome) {
 	lg := &peer.Log{}
+	baseline := len(peer.Stacks("chainsync.(*Client)"))
+	gated := make(chan struct{})
+	release := make(chan struct{})
+	var gateOnce, releaseOnce sync.Once
+	defer releaseOnce.Do(func() { close(release) })
+	gate := func(n int) { // called inside the n-th callback, after it was logged
+		if sc.Gate > 0 && n == sc.Gate {
+			gateOnce.Do(func() { close(gated) })
+			<-release
+		}
+	}
 	var rbSentAt sync.Map // script index of a "B" update -> time.Time it was sent
 	p := peer.New(false)
 	defer p.Close()
@@ -376,7 +435,9 @@ func runScenario(sc scenario, seed uint64) (out outcome) {
 			}
 			cbMu.Lock()
 			ncb++
+			n := ncb
 			cbMu.Unlock()
+			gate(n)
 			return nil
 		}),
 		chainsync.WithRollBackwardFunc(func(ctx chainsync.CallbackContext, pt pcommon.Point, t chainsync.Tip) error {
@@ -386,12 +447,14 @@ func runScenario(sc scenario, seed uint64) (out outcome) {
 			rbCalled.Store(nrbCalled, struct{}{})
 			nrbCalled++
 			ncb++
+			n := ncb
 			cbMu.Unlock()
+			gate(n)
 			return nil
 		}),
 	)
 	oConn, err := ouroboros.New(
-		ouroboros.WithConnection(p.Client),
+		ouroboros.WithConnection(&tapConn{Conn: p.Client, lg: lg}),
 		ouroboros.WithNetworkMagic(peer.Magic),
 		ouroboros.WithNodeToNode(false),
 		ouroboros.WithKeepAlive(false),
@@ -417,18 +480,28 @@ func runScenario(sc scenario, seed uint64) (out outcome) {
 	if target < 0 || target > len(sc.Script) {
 		target = len(sc.Script)
 	}
-	deadline := time.Now().Add(10 * time.Second)
-	for time.Now().Before(deadline) {
-		cbMu.Lock()
-		n := ncb
-		cbMu.Unlock()
-		if n >= target {
-			break
+	stopRet := make(chan struct{})
+	if sc.Gate > 0 {
+		select {
+		case <-gated:
+			out.Gated = true
+		case <-time.After(10 * time.Second):
 		}
-		time.Sleep(200 * time.Microsecond)
 	}
-	if sc.StopAt < 0 {
-		time.Sleep(3 * time.Millisecond) // surplus callbacks / requests would show up here
+	if !out.Gated {
+		deadline := time.Now().Add(10 * time.Second)
+		for time.Now().Before(deadline) {
+			cbMu.Lock()
+			n := ncb
+			cbMu.Unlock()
+			if n >= target {
+				break
+			}
+			time.Sleep(200 * time.Microsecond)
+		}
+		if sc.StopAt < 0 {
+			time.Sleep(3 * time.Millisecond) // surplus callbacks / requests would show up here
+		}
 	}
 	overOnce.Do(func() { close(scenarioOver) })
 	lg.Add("stop")
@@ -437,8 +510,30 @@ func runScenario(sc scenario, seed uint64) (out outcome) {
 		out.Events = lg.Snapshot()
 		return
 	}
+	go func() { defer close(stopRet); cl.Stop() }()
+	if out.Gated {
+		// the callback is blocked, the client has agency: Done must reach the peer now; the
+		// bound only matters when it never comes
+		t0 := time.Now()
+		for time.Since(t0) < 5*time.Second {
+			mu.Lock()
+			d := out.DoneSeen
+			mu.Unlock()
+			if d {
+				out.DoneAtGate = true
+				break
+			}
+			time.Sleep(300 * time.Microsecond)
+		}
+		lg.Add("release")
+	}
+	releaseOnce.Do(func() { close(release) })
 	// Stop() may legitimately spend busyLockTimeout (5 s) + 250 ms; bound 3x that
-	out.StopReturned = peer.WaitOrHang(16*time.Second, func() { cl.Stop() })
+	select {
+	case <-stopRet:
+		out.StopReturned = true
+	case <-time.After(16 * time.Second):
+	}
 	mu.Lock()
 	stopped = true
 	mu.Unlock()
@@ -456,6 +551,25 @@ func runScenario(sc scenario, seed uint64) (out outcome) {
 	time.Sleep(3 * time.Millisecond)
 	out.Events = lg.Snapshot()
 	if out.StopReturned {
+		// syncLoop, handlers and Stop itself must be gone (generous bound: only a leak pays it)
+		t0 := time.Now()
+		for {
+			left := peer.Stacks("chainsync.(*Client)")
+			if len(left) <= baseline {
+				break
+			}
+			if time.Since(t0) > 5*time.Second {
+				for _, g := range left {
+					lines := strings.Split(g, "\n")
+					if len(lines) > 5 {
+						lines = lines[:5]
+					}
+					out.GoLeft = append(out.GoLeft, strings.Join(lines, " | "))
+				}
+				break
+			}
+			time.Sleep(2 * time.Millisecond)
+		}
 		done := make(chan struct{})
 		go func() { oConn.Close(); close(done) }()
 		select {
@@ -528,10 +642,10 @@ func monitor(c *vh.Ctx, sc scenario, out outcome) {
 			break
 		}
 	}
-	if sc.StopAt < 0 && out.StopReturned && reps != len(sc.Script) {
+	if sc.StopAt < 0 && sc.Gate == 0 && out.StopReturned && reps != len(sc.Script) {
 		c.Res.Violate("monitor", "sync-stalled", fmt.Sprintf("the client stopped requesting: only %d of %d updates were ever requested", reps, len(sc.Script)), rep)
 	}
-	if sc.StopAt < 0 && len(cbs) != len(sentReps) {
+	if sc.StopAt < 0 && sc.Gate == 0 && len(cbs) != len(sentReps) {
 		c.Res.Violate("monitor", "callback-missing", fmt.Sprintf("%d callbacks for %d server messages", len(cbs), len(sentReps)), rep)
 	}
 	if !out.StopReturned {
@@ -545,15 +659,68 @@ func monitor(c *vh.Ctx, sc scenario, out outcome) {
 		}
 		c.Res.Violate("monitor", key, fmt.Sprintf("Stop() had not returned after 16 s (3x its own 5.25 s budget); stacks: %v", out.Evidence), rep)
 	}
-	if out.DoneSeen && out.DoneOutst != 0 {
-		c.Res.Violate("monitor", "done-sent-without-agency", fmt.Sprintf("Done was written while %d requests were unanswered", out.DoneOutst), rep)
+	// ---- the wire as the client's muxer wrote it (tapConn): Done only with agency, nothing after it
+	wreq, wreps := 0, 0
+	doneWritten := false
+	for _, e := range out.Events {
+		f := strings.Fields(e)
+		if len(f) == 0 {
+			continue
+		}
+		switch f[0] {
+		case "rep":
+			wreps++
+		case "seg":
+			for _, t := range f[1:] {
+				if doneWritten {
+					c.Res.Violate("monitor", "write-after-done", fmt.Sprintf("message type %s was written on chain-sync after Done", t), rep)
+				}
+				switch t {
+				case "0":
+					wreq++
+				case "7":
+					doneWritten = true
+					if wreq != wreps {
+						// the server has answered wreps of the wreq requests written so far: it holds agency
+						c.Res.Violate("monitor", "done-sent-without-agency",
+							fmt.Sprintf("Done was written while %d of %d RequestNext were unanswered (Done shares a segment with / follows an unanswered request)", wreq-wreps, wreq), rep)
+					}
+				}
+			}
+		}
+	}
+	if out.Gated && out.StopReturned && !out.DoneAtGate {
+		c.Res.Violate("monitor", "done-missing-with-agency",
+			fmt.Sprintf("Stop() was called while callback %d was blocked (every request answered: the client has agency) and Done had not reached the peer after 5 s", sc.Gate), rep)
+	}
+	if len(out.GoLeft) > 0 {
+		c.Res.Violate("monitor", "goroutine-left-after-stop", fmt.Sprintf("chain-sync client goroutines still running 5 s after Stop() returned: %v", out.GoLeft), rep)
 	}
 }
 
 func coqCase(sc scenario, out outcome) string {
-	var evs []string
+	var evs, wire []string
+	stopSeen := false
 	for _, e := range out.Events {
 		f := strings.SplitN(e, " ", 2)
+		switch f[0] {
+		case "rep":
+			wire = append(wire, "WRep")
+		case "seg":
+			var ms []string
+			for _, t := range strings.Fields(f[1]) {
+				switch t {
+				case "0":
+					ms = append(ms, "QReq")
+				case "7":
+					ms = append(ms, "QDone")
+				}
+			}
+			wire = append(wire, "WSeg "+vh.List(ms))
+		}
+		if stopSeen {
+			continue // the base LTS replays the history up to the Stop() call; the wire is checked to the end
+		}
 		switch f[0] {
 		case "req":
 			evs = append(evs, "EReq")
@@ -566,11 +733,10 @@ func coqCase(sc scenario, out outcome) string {
 		case "ap":
 			evs = append(evs, "EAp "+coqKey(f[1]))
 		case "stop":
-			// the model has no Stop label: the history up to the Stop call is replayed
-				return fmt.Sprintf("{| c_limit := %d; c_pipe := %s; c_evs := %s |}", sc.Limit, vh.Bool(sc.Pipe), vh.List(evs))
+			stopSeen = true
 		}
 	}
-	return fmt.Sprintf("{| c_limit := %d; c_pipe := %s; c_evs := %s |}", sc.Limit, vh.Bool(sc.Pipe), vh.List(evs))
+	return fmt.Sprintf("{| xc := {| c_limit := %d; c_pipe := %s; c_evs := %s |}; xc_wire := %s |}", sc.Limit, vh.Bool(sc.Pipe), vh.List(evs), vh.List(wire))
 }
 
 func genScenario(r *vh.Rng, limit, n int) scenario {
@@ -584,9 +750,31 @@ func genScenario(r *vh.Rng, limit, n int) scenario {
 		}
 		sc.Script = append(sc.Script, u)
 	}
-	if r.Intn(3) == 0 {
+	if r.Intn(2) == 0 {
 		sc.StopAt = r.Intn(n + 1)
 	}
+	return sc
+}
+
+// Stop() with agency: the callback number 1 + j*limit is blocked (all requests answered)
+func genGateScenario(r *vh.Rng, limit int) scenario {
+	j := r.Intn(3)
+	g := 1 + j*limit
+	n := g + r.Intn(limit+1)
+	sc := genScenario(r, limit, n)
+	sc.StopAt = -1
+	sc.Gate = g
+	sc.SlowCb = r.Intn(3)
+	for i := range sc.Script {
+		sc.Script[i].Hold = sc.Script[i].Hold && i >= g // the replies before the gate come promptly
+	}
+	return sc
+}
+
+// Stop() at a random point of a pipeline conversation (blocks in flight in the block pipeline)
+func genPipeStopScenario(r *vh.Rng, limit int) scenario {
+	sc := genPipeScenario(r, limit)
+	sc.StopAt = r.Intn(len(sc.Script) + 1)
 	return sc
 }
 
@@ -621,6 +809,14 @@ func runOne(c *vh.Ctx, cf *vh.CaseFile, sc scenario, seed uint64) {
 	if sc.Pipe {
 		class = "pipeline," + class
 	}
+	switch {
+	case sc.Gate > 0:
+		class = "stop-with-agency," + class
+	case sc.StopAt == 0:
+		class = "stop-after-sync," + class
+	case sc.StopAt > 0:
+		class = "stop-mid," + class
+	}
 	c.Res.Count(string(canon), len(sc.Script) >= 3, class)
 	monitor(c, sc, out)
 	cf.Add(coqCase(sc, out), map[string]any{"scenario": sc, "outcome": out})
@@ -630,7 +826,7 @@ func runOne(c *vh.Ctx, cf *vh.CaseFile, sc scenario, seed uint64) {
 			nreq++
 		}
 	}
-	c.Res.Sample(map[string]any{"limit": sc.Limit, "updates": len(sc.Script), "events": len(out.Events), "requests": nreq, "stop_at": sc.StopAt})
+	c.Res.Sample(map[string]any{"limit": sc.Limit, "updates": len(sc.Script), "events": len(out.Events), "requests": nreq, "stop_at": sc.StopAt, "gate": sc.Gate, "gated": out.Gated, "done_at_gate": out.DoneAtGate, "done_seen": out.DoneSeen})
 }
 
 func run(c *vh.Ctx) error {
@@ -643,13 +839,14 @@ func run(c *vh.Ctx) error {
 			return fmt.Errorf("fixture %s does not decode to its mainnet slot/hash: %v", f.Name, err)
 		}
 	}
-	c.Res.Rule = "a scenario = pipeline limit (0..10, 25, 100), a server script of 1..60 updates (roll forward with real blocks of 7 eras, roll backward, optional AwaitReply, held/bursty/coalesced replies), slow callbacks, Stop() at a random callback count or after the script; plus a block-pipeline class (real pipeline.BlockPipeline, ApplyFunc gated until the following RollBackward has been sent, drain timeout at its zero default, scripts RF..RF RB RF.. RB RF..); distinct by the scenario JSON; non-trivial = at least 3 updates"
+	c.Res.Rule = "a scenario = pipeline limit (0..10, 25, 100), a server script of 1..60 updates (roll forward with real blocks of 7 eras, roll backward, optional AwaitReply, held/bursty/coalesced replies), slow callbacks, Stop() at a random callback count / right after Sync() / after the script / while a chosen callback is blocked with every request answered (client has agency); plus a block-pipeline class (real pipeline.BlockPipeline, ApplyFunc gated until the following RollBackward has been sent, drain timeout at its zero default, scripts RF..RF RB RF.. RB RF..); distinct by the scenario JSON; non-trivial = at least 3 updates"
 	c.Res.Modelled = []string{
 		"the engine's pipelined send path is abstracted: SendMessage = written (an upper bound); engine itself C11-C13",
-		"Stop() is not a label of the LTS: only the absence of its wait cycle is proved (C21_stop_no_wait_cycle); its behaviour is monitored",
+		"Stop(): modelled statement by statement in coq/C21/Stop.v on a small abstraction of the engine's send side (queue 80, token, batches of 20, queued transitions); its two bounded waits are abstracted (TryLock gives up only against a holder blocked on a full queue; the 250 ms drain wait may expire at any time and C21_stop's Done clause is for runs where it did not); tie = the segments on the connection (check_wire) and the monitor",
 		"callbacks return nil; node-to-client flavour (whole blocks); with a block pipeline the pipeline itself (decode/apply stages, WaitForDrain = PendingCount() == 0) is abstracted as an in-order in-flight list (the pipeline is C42-C44) and ApplyFunc terminates within the drain timeout",
 	}
 	cf := c.NewCaseFile("c21", header())
+	cf.Func, cf.Type = "xmismatches", "xcase"
 	cf.SetShardSize(40)
 	if c.Replay != "" {
 		b, err := os.ReadFile(c.Replay)
@@ -672,6 +869,20 @@ func run(c *vh.Ctx) error {
 	runOne(c, cf, scenario{Limit: 1, StopAt: -1, Pipe: true, Script: []update{{Kind: "F", Fix: 0}, {Kind: "F", Fix: 1, Tip: 1}, {Kind: "B", Fix: 2, Tip: 2}}}, 1)
 	for k := 0; k < c.Pick(4, 24); k++ {
 		runOne(c, cf, genPipeScenario(c.Rng, []int{1, 2, 3, 5, 10, 25}[c.Rng.Intn(6)]), c.Rng.U64())
+	}
+	// Stop() scenarios: with agency (gated callback, Done must go out), right after Sync()
+	// (known finding when Done is pipelined behind the first request), mid pipeline
+	runOne(c, cf, scenario{Limit: 3, StopAt: -1, Gate: 1, Script: []update{{Kind: "F", Fix: 0}, {Kind: "F", Fix: 1, Tip: 1}}}, 1)
+	for k := 0; k < c.Pick(6, 40); k++ {
+		runOne(c, cf, genGateScenario(c.Rng, []int{1, 2, 3, 5, 10}[c.Rng.Intn(5)]), c.Rng.U64())
+	}
+	for k := 0; k < c.Pick(3, 20); k++ {
+		sc := genScenario(c.Rng, []int{1, 2, 5, 10, 25}[c.Rng.Intn(5)], 1+c.Rng.Intn(10))
+		sc.StopAt = 0
+		runOne(c, cf, sc, c.Rng.U64())
+	}
+	for k := 0; k < c.Pick(2, 12); k++ {
+		runOne(c, cf, genPipeStopScenario(c.Rng, []int{1, 2, 3, 5, 10}[c.Rng.Intn(5)]), c.Rng.U64())
 	}
 	limits := []int{0, 1, 2, 3, 4, 5, 6, 7, 8, 9, 10, 25, 100}
 	reps := c.Pick(3, 25)
